@@ -176,6 +176,7 @@ int main(int argc, char **argv)
 	}
 	for (int i = 0; i < a.nextra; i++) if (!strcmp(a.extra[i], "--prop") && i + 1 < a.nextra) PROPN = a.extra[++i];
 	xp_init(PROPN, a.tier, 1024, a.budget_s);
+	xp_guard("!C09", NULL, 0);
 	if (a.replay) { job(xp_load_replay(a.replay)); return 0; }
 	hc_quiet();
 	xp_run_jobs(70, job, a.workers);
